@@ -227,3 +227,32 @@ Theorem C11_multifile_hyps_sat : 1 <= 4 /\ NoDup [10; 11; 12; 13; 14; 15] /\
   map (fun k => deal_mod 4 k [10; 11; 12; 13; 14; 15]) (seq 0 4) = [[10; 14]; [11; 15]; [12]; [13]].
 Proof. exact multifile_hyps_sat. Qed.
 Print Assumptions C11_multifile_hyps_sat.
+
+(* ---- reusable per-partition state (read_text: one buffer for all the files of a partition) ---- *)
+(* the row emitted for a file is that file, whatever the buffer holds from files read earlier *)
+Theorem C11_text_reader_no_carry_over : forall buf files, text_reader true buf files = map Some files.
+Proof. exact text_reader_no_carry_over. Qed.
+Print Assumptions C11_text_reader_no_carry_over.
+
+Theorem C11_text_reader_row_local : forall buf1 buf2 files1 files2 i f,
+  nth_error files1 i = Some f -> nth_error files2 i = Some f ->
+  nth_error (text_reader true buf1 files1) i = nth_error (text_reader true buf2 files2) i.
+Proof. exact text_reader_row_local. Qed.
+Print Assumptions C11_text_reader_row_local.
+
+Theorem C11_text_reader_no_content : forall files, text_reader false [] files = map (fun _ => None) files.
+Proof. exact text_reader_no_content. Qed.
+Print Assumptions C11_text_reader_no_content.
+
+Theorem C11_text_multifile_union : forall p files, 1 <= p ->
+  Permutation (text_multi true p files) (map Some files).
+Proof. exact text_multifile_union. Qed.
+Print Assumptions C11_text_multifile_union.
+
+(* REFUTED for a buffer that is only grown, never shrunk: the smaller later file gets the tail of the
+   earlier larger one *)
+Theorem C11_text_reader_grow_refuted :
+  exists files, text_reader_grow [] files <> map Some files /\
+                text_reader_grow [] files = [Some [1; 2; 3]; Some [9; 2; 3]]%N.
+Proof. exact text_reader_grow_refuted. Qed.
+Print Assumptions C11_text_reader_grow_refuted.
